@@ -360,6 +360,8 @@ def check(scenario, w, st, res, ids):
                                     bool(l['ignore']))
                                    for l in scenario['listeners']))[:6]]
     ob()
+    if sim.end_state == 'inconclusive':
+        return
     if sim.end_state != 'done':
         V.append(('C13/%s' % sim.end_state, repr(sim.end_detail)))
         return
